@@ -1,21 +1,51 @@
-(* C07 Connector, agent-level part PROVED: heads stay on the grid, ids / starts / targets never change, a connected agent
-   never moves again (C08_Connector_connection_absorbing), a head only moves by one cell onto an EMPTY / own-target cell
-   (C06_Connector_..._partial).  As a consequence an agent whose target lies off the grid can never connect.
-   Grid-level statement (comment; _partial): Physical c s -> Physical c (next c s acts) [one code per cell, the stored head
-   / target positions agree with the grid, heads and targets unique], occupancy grows by exactly the number of agents that
-   moved onto EMPTY cells.  Correspondence-checked and checked by Physical_b / occupancy on every implementation state. *)
-Require Import JV.Base.Prelude JV.Base.JaxIndex JV.Base.Codec JV.Base.TimeStep JV.Model.Connector JV.Proofs.Connector.
-Theorem C07_Connector_heads_stay_on_grid_partial c plan s k :
+(* C07 Connector, PROVED for all sizes, states and ANY in-spec joint actions (legal or not, any number of agents
+   contending for a cell): grid-level physical consistency is an invariant.  Physical c s = the grid is G x G, there are
+   num_agents agents, agent k has id k with head and target on the grid, the grid shows POSITION k at its stored head and
+   (until connected) TARGET k at its stored target, and every cell is EMPTY or carries the code of exactly one agent with
+   POSITION / TARGET codes only at the stored head / target (so heads and targets are unique: one entity per cell).
+   It is preserved by every step and along every episode (from the max-join theorem, Proofs/Connector_Join.v).
+   Also: heads stay on the grid, ids / starts / targets never change, a connected agent never moves again
+   (C08_Connector_connection_absorbing); an agent whose target lies off the grid can never connect.
+   Conserved quantity: the number of occupied cells grows by exactly the number of agents whose head moved onto an EMPTY
+   cell (a move onto the own TARGET and the POSITION -> PATH rewrite leave it unchanged).
+   Every state reachable from a UniformRandomGenerator instance (any valid draw) by in-spec joint actions is Physical. *)
+Require Import JV.Base.Prelude JV.Base.JaxIndex JV.Base.Codec JV.Base.TimeStep JV.Model.Connector JV.Proofs.Connector
+  JV.Proofs.Connector_Step JV.Proofs.Connector_Uniform.
+Theorem C07_Connector_physical_preserved c s acts :
+  Physical c s -> wf c s acts -> in_spec acts -> Physical c (next c s acts).
+Proof. exact (Physical_next c s acts). Qed.
+Theorem C07_Connector_physical_along_episode c plan s :
+  Physical c s -> Forall (fun a => zlen a = nag c /\ in_spec a) plan -> Physical c (run c s plan).
+Proof. exact (Physical_run c plan s). Qed.
+Theorem C07_Connector_reachable_from_uniform_instance c starts targets plan :
+  0 < gsz c -> uniform_draw_ok (gsz c) (nag c) starts targets = true ->
+  Forall (fun a => zlen a = nag c /\ in_spec a) plan ->
+  Physical c (run c (gen_uniform (gsz c) (nag c) starts targets) plan).
+Proof. exact (uniform_reachable_Physical c starts targets plan). Qed.
+Theorem C07_Connector_occupancy c s acts :
+  Physical c s -> wf c s acts -> in_spec acts ->
+  occupancy (grid (next c s acts)) = occupancy (grid s) + zsum (map (entered_empty c s acts) (zrange (nag c))).
+Proof. exact (occupancy_next c s acts). Qed.
+Theorem C07_Connector_heads_stay_on_grid c plan s k :
   0 <= nag c -> zlen (agents s) = nag c -> Forall (fun a => zlen a = nag c) plan -> 0 <= k < nag c ->
   in_grid (gsz c) (apos (znth dflt (agents s) k)) = true -> in_grid (gsz c) (atarget (znth dflt (agents s) k)) = false ->
   conn (run c s plan) k = false.
 Proof. exact (never_connected c plan s k). Qed.
-Print Assumptions C07_Connector_heads_stay_on_grid_partial.
+Print Assumptions C07_Connector_physical_preserved.
+Print Assumptions C07_Connector_physical_along_episode.
+Print Assumptions C07_Connector_reachable_from_uniform_instance.
+Print Assumptions C07_Connector_occupancy.
+Print Assumptions C07_Connector_heads_stay_on_grid.
 Example C07_Connector_nonvacuous :
   let c := mkC 3 3 9 100 (-3) in
-  Physical_b c ex_s3 = true /\ occupancy (grid ex_s3) = 6 /\ occupancy (grid (next c ex_s3 [3; 2; 4])) = 7
+  (Physical c ex_s3 /\ wf c ex_s3 [3; 2; 4] /\ in_spec [3; 2; 4])
+  /\ Physical_b c ex_s3 = true /\ occupancy (grid ex_s3) = 6 /\ occupancy (grid (next c ex_s3 [3; 2; 4])) = 7
+  /\ map (entered_empty c ex_s3 [3; 2; 4]) (zrange 3) = [0; 0; 1]
   /\ Physical_b c (mkS [[0; 2; 0]; [5; 0; 8]; [3; 6; 9]] 0 [mkA 0 (0, 1) (2, 0) (0, 0); mkA 1 (1, 0) (2, 1) (1, 0); mkA 2 (1, 2) (2, 2) (1, 2)]) = false.
-Proof. vm_compute. repeat split; reflexivity. Qed.
+Proof.
+  cbv zeta. split; [|vm_compute; repeat split; reflexivity].
+  split; [apply Physical_b_spec; vm_compute; reflexivity|]. split; [vm_compute; repeat split; discriminate|repeat constructor; lia].
+Qed.
 (* the boolean checker evaluated on every implementation state decides the declarative predicate, and in a Physical state
    the POSITION code of agent j occurs exactly at agent j's stored position (heads unique, stored positions = grid) *)
 Theorem C07_Connector_checker c s : Physical_b c s = true <-> Physical c s.
